@@ -44,7 +44,13 @@
 #ifndef OFV_SIZE
 #error "OFV_SIZE"
 #endif
+#ifndef OFV_TA
+#define OFV_TA 0
+#define OFV_FA 0
+#endif
 #define SLACK 16
+#define DSLACK (SLACK + OFV_TA)	/* dst at address = OFV_TA mod 8 */
+#define SSLACK (SLACK + OFV_FA)	/* src at address = OFV_FA mod 8 */
 
 UINT32 g_s;
 UINT8 in_c, in_slack_s;
@@ -58,16 +64,16 @@ int main(void)
 	REQUIRES(in_c < 16);
 #endif
 	IN(UINT32, g_s);
-	REQUIRES(g_s < SLACK);
+	REQUIRES(g_s < DSLACK);
 #ifdef OFV_NATIVE
-	UINT8 *dbase = OFV_MALLOC(SLACK + OFV_SIZE), *sbase = OFV_MALLOC(SLACK + OFV_SIZE);
+	UINT8 *dbase = OFV_MALLOC(DSLACK + OFV_SIZE), *sbase = OFV_MALLOC(SSLACK + OFV_SIZE);
 #else
 	/* objects of exact size with nondeterministic contents; arrays rather than malloc so that the kernels'
 	 * pointer comparisons (dst < lim) are decided by constant propagation and the run is loop-free */
-	UINT8 dobj[SLACK + OFV_SIZE], sobj[SLACK + OFV_SIZE];
+	UINT8 dobj[DSLACK + OFV_SIZE], sobj[SSLACK + OFV_SIZE];
 	UINT8 *dbase = dobj, *sbase = sobj;
 #endif
-	UINT8 *dst = dbase + SLACK, *src = sbase + SLACK;
+	UINT8 *dst = dbase + DSLACK, *src = sbase + SSLACK;
 #if OFV_KERNEL == 1
 #ifdef OFV_NATIVE
 	of_rs_init();
